@@ -878,3 +878,238 @@ def services_stage(prop, tier, seed, replay):
         rep["floors"]["lab-call-cells"] = [6, len([k for k in rep["matrix"] if k.startswith("lab-call/")])]
     rep["violations"] = rep["violations"][:100]
     return rep
+
+
+# ------------------------------------------------------------------------------------------------
+# C19 lab half: raw requests with corrupted arguments against generated endpoints of random services
+
+def plain_text(wire, v):
+    import base64, math
+    u = wire.unalias(v)
+    k = u[0]
+    if k in ("str", "uuid", "rid", "token", "enum"):
+        return u[1]
+    if k in ("int", "long"):
+        return str(u[1])
+    if k == "bool":
+        return "true" if u[1] else "false"
+    if k == "dbl":
+        x = u[1]
+        if math.isnan(x):
+            return "NaN"
+        if math.isinf(x):
+            return "Infinity" if x > 0 else "-Infinity"
+        return repr(x)
+    if k == "time":
+        return wire.time_text(u[1][0], u[1][1])
+    if k == "bin":
+        return base64.b64encode(u[1]).decode()
+    raise ValueError(k)
+
+
+def pct(s):
+    out = []
+    for b in s.encode("utf-8"):
+        ch = chr(b)
+        out.append(ch if (ch.isalnum() and b < 128) or ch in "-._~" else "%%%02X" % b)
+    return "".join(out)
+
+
+def latin(s):
+    """utf-8 bytes of s as a latin-1 string (the transport format of labrt::svc::RawSpec)."""
+    return s.encode("utf-8").decode("latin-1")
+
+
+def param_shape(wire, c, t):
+    """(single-valued?, optional?, typed?) of a path/query/header parameter type."""
+    d = wire.dealias(c, t)
+    optional = d["type"] == "optional"
+    multi = d["type"] in ("list", "set")
+    item = wire.dealias(c, d[d["type"]]["itemType"]) if (optional or multi) else d
+    if item["type"] == "reference":
+        typed = True          # enum
+    else:
+        typed = item["primitive"] not in ("STRING", "ANY", "BINARY")
+    return (not multi, optional, typed)
+
+
+def raw_stage(prop, tier, seed, replay):
+    import wire
+    from gen import LabGen, Profile
+    build(["genrun"])
+    rr = random.Random(seed * 4001 + 19)
+    n = 3 if tier == "quick" else 12
+    labs, specs = [], []
+    for i in range(n):
+        cs = rr.getrandbits(48)
+        cfg = {"exhaustive": i % 2 == 1, "serialize_empty": rr.random() < 0.5, "strip": rr.choice([None, "com.verif", "com.verif.lab"])}
+        g = LabGen(cs, Profile(n_types=20, services=3, errors=0, hostile_names=True))
+        ir = g.ir()
+        labs.append((cs, cfg, g, ir))
+        specs.append({"name": "raw%d" % i, "ir": ir, "cfg": cfg, "drive": True, "driver": lab.driver_source(ir, cfg, registry=False, services=True)})
+    res = lab.build_labs("raw-%s" % tier, specs)
+    rep = empty_report(prop)
+    distinct = set()
+    orig_scalar = wire.gen_scalar
+    for i, (cs, cfg, g, ir) in enumerate(labs):
+        name = "raw%d" % i
+        if res.gen.get(name, {}).get("status") != "ok" or not res.compiled.get(name):
+            raise Inconclusive("service lab %s did not build: %s %s" % (name, res.gen.get(name), res.errors.get(name)))
+        r = random.Random(cs ^ 0xC19)
+        c = wire.Ctx(g, r, cfg["exhaustive"], cfg["serialize_empty"])
+        cases, info = [], {}
+        for s in ir["services"]:
+            sn = s["serviceName"]["name"]
+            for e in s["endpoints"]:
+                if any(a["paramType"]["type"] == "body" and wire.dealias(c, a["type"]) in ({"type": "primitive", "primitive": "BINARY"},) for a in e["args"]):
+                    continue
+                for k in range(6 if tier == "quick" else 24):
+                    def hs(cc, p, _o=orig_scalar):
+                        if p == "STRING":
+                            return ("str", visible_ascii(cc.r))
+                        return _o(cc, p)
+                    vals = {}
+                    ok = True
+                    for a in e["args"]:
+                        wire.gen_scalar = hs if a["paramType"]["type"] == "header" else orig_scalar
+                        try:
+                            vals[a["argName"]] = wire.gen_value(c, a["type"])
+                        except wire.NoValue:
+                            ok = False
+                        finally:
+                            wire.gen_scalar = orig_scalar
+                    if not ok:
+                        continue
+                    # choose the corruptions (2/3 of the requests)
+                    cands = []
+                    for a in e["args"]:
+                        kind = a["paramType"]["type"]
+                        if kind == "body":
+                            continue
+                        single, optional, typed = param_shape(wire, c, a["type"])
+                        if kind == "path" and typed:
+                            cands.append((a, "unparsable"))
+                        if kind == "query":
+                            if single and not optional:
+                                cands.append((a, "absent"))
+                            if single:
+                                cands.append((a, "repeated"))
+                            if typed:
+                                cands.append((a, "unparsable"))
+                        if kind == "header":
+                            cands += [(a, "not-text"), (a, "repeated")]
+                            if not optional:
+                                cands.append((a, "absent"))
+                            if typed:
+                                cands.append((a, "unparsable"))
+                    if e.get("auth"):
+                        cands += [(None, "auth-missing"), (None, "auth-wrong-prefix"), (None, "auth-bad-chars")]
+                    chosen = {}
+                    if cands and r.random() < 0.67:
+                        for _ in range(1 if r.random() < 0.75 else 2):
+                            a, how = r.choice(cands)
+                            chosen[a["argName"] if a else "__auth__"] = how
+                    # render
+                    path = e["httpPath"]
+                    query, headers, body = [], [], ""
+                    for a in e["args"]:
+                        an, kind, v = a["argName"], a["paramType"]["type"], vals[a["argName"]]
+                        how = chosen.get(an)
+                        u = wire.unalias(v)
+                        texts = []
+                        if kind != "body":
+                            if u[0] == "opt":
+                                texts = [] if u[1] is None else [plain_text(wire, u[1])]
+                            elif u[0] in ("list", "set"):
+                                texts = [plain_text(wire, x) for x in u[1]]
+                            else:
+                                texts = [plain_text(wire, v)]
+                        if kind == "path":
+                            path = path.replace("{" + an + "}", pct("!bad" if how else texts[0]))
+                        elif kind == "query":
+                            key = a["paramType"]["query"]["paramId"]
+                            if how == "absent":
+                                texts = []
+                            elif how == "repeated":
+                                texts = (texts or ["1"])[:1] * 2
+                            elif how == "unparsable":
+                                texts = ["!bad"]
+                            query += [(key, t) for t in texts]
+                        elif kind == "header":
+                            key = a["paramType"]["header"]["paramId"].lower()
+                            if how == "absent":
+                                texts = []
+                            elif how == "repeated":
+                                texts = (texts or ["1"])[:1] * 2
+                            elif how == "unparsable":
+                                texts = ["!bad"]
+                            elif how == "not-text":
+                                texts = ["xÿ"]
+                            headers += [(key, t if how == "not-text" else latin(t)) for t in texts]
+                        else:
+                            body = latin(wire.render(c, v, a["type"], wire.Style()))
+                            if not (u[0] == "opt" and u[1] is None):
+                                headers.append(("content-type", "application/json"))
+                            else:
+                                body = ""
+                    if e.get("auth"):
+                        how = chosen.get("__auth__")
+                        cookie = e["auth"]["type"] == "cookie"
+                        prefix = (e["auth"]["cookie"]["cookieName"] + "=") if cookie else "Bearer "
+                        hn = "cookie" if cookie else "authorization"
+                        if how == "auth-wrong-prefix":
+                            headers.append((hn, "Basic abc"))
+                        elif how == "auth-bad-chars":
+                            headers.append((hn, prefix + "to ken!"))
+                        elif how != "auth-missing":
+                            headers.append((hn, prefix + "tok.en"))
+                    uri = path + ("?" + "&".join("%s=%s" % (pct(k), pct(v)) for k, v in query) if query else "")
+                    for flavour in ("raw-sync", "raw-async"):
+                        cid = len(cases) + 1
+                        cases.append({"id": cid, "ty": "%s/%s" % (sn, flavour), "op": "raw", "http_method": e["httpMethod"], "uri": uri, "headers": headers, "body": body})
+                        info[cid] = (sn, e, flavour, chosen, uri, headers)
+        results = lab.run_lab(res, name, cases)
+        if "__crash__" in results:
+            rep["violations"].append(violation("lab-raw", cs, "lab-crashed", {"crash": results["__crash__"]}))
+            continue
+        for cid, (sn, e, flavour, chosen, uri, headers) in info.items():
+            out = results.get(cid) or {}
+            rep["evaluations"] += 1
+            sig_c = "+".join(sorted("%s@%s" % (how, ("auth" if an == "__auth__" else [a["paramType"]["type"] for a in e["args"] if a["argName"] == an][0])) for an, how in chosen.items())) or "valid"
+            cell = "lab-raw/%s/%s" % (flavour, sig_c)
+            rep["matrix"][cell] = rep["matrix"].get(cell, 0) + 1
+            distinct.add(fnv(cell))
+            det = {"service": sn, "endpoint": e["endpointName"], "flavour": flavour, "uri": uri, "headers": headers[:8], "corrupted": chosen, "observed": json.dumps(out)[:800]}
+            def fail(sig):
+                rep["violations"].append(violation("lab-raw", cs, "generated-endpoint:%s:%s" % (flavour, sig), det))
+            result, calls = out.get("result", {}), out.get("calls", [])
+            if "panic" in result:
+                fail("panic")
+                continue
+            if not chosen:
+                # no return value is scripted in raw mode: the recording handler itself answers with a harness error
+                harness_err = str(result.get("cause", "")).startswith("harness:")
+                if len(calls) != 1 or not ("ok" in result or harness_err):
+                    fail("valid-request-rejected")
+                continue
+            if calls:
+                fail("handler-invoked:" + sig_c)
+                continue
+            if "err" not in result:
+                fail("no-error")
+                continue
+            code = result["err"]
+            params = [n for n in chosen if n != "__auth__"]
+            param = dict((k, v) for k, v in result.get("safe_params", [])).get("param")
+            okc = (code == "PermissionDenied" and "__auth__" in chosen) or (code == "InvalidArgument" and any(param == json.dumps(p) for p in params))
+            if not okc:
+                kind = "wrong-param-name" if (code == "InvalidArgument" and params) else "wrong-code"
+                det["code"], det["param"] = code, param
+                fail(kind)
+            if len(rep["samples"]) < 3:
+                rep["samples"].append({"sub": "lab-raw", "case_seed": cs, "endpoint": e["endpointName"], "uri": uri, "corrupted": chosen, "code": code, "param": param})
+    rep["distinct"] = sorted(distinct)
+    if not replay:
+        rep["floors"]["lab-raw-cells"] = [8, len([k for k in rep["matrix"] if k.startswith("lab-raw/")])]
+    rep["violations"] = rep["violations"][:100]
+    return rep
